@@ -33,6 +33,13 @@ var placeholders = strings.NewReplacer(
 	"~u", "ê", // e-circumflex: UTF-8 C3 AA (both bytes are Latin-1 letters)
 	"~t", "\t",
 	"~n", "\n",
+	// white space that is not YANG optsep
+	"~f", "\f",
+	"~v", "\v",
+	"~N", "\u0085", // NEL
+	"~b", "\u00a0", // NBSP
+	"~L", "\u2028", // LINE SEPARATOR
+	"~I", "\u3000", // IDEOGRAPHIC SPACE
 )
 
 // Concrete turns a spec argument into the concrete argument string.
